@@ -30,6 +30,8 @@ RULE = ("state = (C unit, target, opt level, configuration (PYTHONHASHSEED, allo
         "configurations at distance <= 1 from the reference), all words of depth 3 (configurations differing from the reference in the "
         "seed only, 2 target pairs) or 2 over {P,Q,X}, every unit as first compilation of a process for each target pair; distinct non-trivial = distinct (target, level, object digest) of a compiled unit")
 ASSUMPTIONS = [
+    "in every state the unit's object is linked twice: the second image must equal the first and the object's saved text must be unchanged by "
+    "linking (key <family>/link-twice); this is judged inside one process, not against the reference configuration",
     "oracle: equality of ObjectFile.save text and of the linked image (save text + image bytes) with the reference state; no model of the compiler is involved",
     "every configuration process is deterministic: ASLR off (setarch -R), fixed minimal environment, fixed argv/cwd/stdin; the reference "
     "configuration is run twice and compared, and every divergence is re-run (and must reproduce itself) before it is reported",
@@ -344,6 +346,8 @@ def run(ctx):
     cpu = [0.0]
     unsupported = set()
 
+    relinks = {}    # target family -> first record whose second link differs or whose input object was changed by linking
+
     def check_records(cfg, d, recs):
         nonlocal states, traces
         seq = expand(d)
@@ -354,6 +358,8 @@ def run(ctx):
             states += 1
             cpu[0] += float(rec["cpu"])
             ctx.add()
+            if rec.get("relink", "same") != "same" or rec.get("input_after_link", "same") != "same":
+                relinks.setdefault(family(rec["target"]), rec)
             if key3 not in reftab:
                 if cfg != REF:
                     raise core.HarnessError("no reference for %r" % (key3,))
@@ -412,6 +418,10 @@ def run(ctx):
             if not ok:
                 raise core.HarnessError("divergence %s did not reproduce on re-run (%s): a configuration process is not deterministic" % (k, detail))
             ctx.violations[k] = (ctx.violations[k][0], detail, witness)
+        for fam, rec in sorted(relinks.items()):
+            ctx.violation("%s/link-twice" % fam, "cc(%s, %s, opt_level=%s) then link([obj]) twice in one process: the second image is %s, the input object after the first "
+                          "link is %s" % (rec["prog"], rec["target"], rec["level"], rec.get("relink"), rec.get("input_after_link")),
+                          {"kind": "relink", "op": [rec["prog"], rec["target"], rec["level"]]}, order=10 ** 12)
     except core.HarnessError:
         if repo_fingerprint(repo) != fingerprint:
             raise core.HarnessError("%s/ppci was modified while the check was running: results of different processes are not comparable" % repo)
@@ -524,5 +534,10 @@ def settle(found, repo):
 
 def replay(w):
     from vf import core
+    if w.get("kind") == "relink":
+        rec = launch(REF, word_shard([w["op"]]), core.REPO)[0]
+        bad = rec.get("relink", "same") != "same" or rec.get("input_after_link", "same") != "same"
+        return bad, "cc(%s, %s, opt_level=%s) then link twice: second image %s, input object after the first link %s" % (
+            w["op"][0], w["op"][1], w["op"][2], rec.get("relink"), rec.get("input_after_link"))
     violated, detail, _, _, _ = run_pair(w, core.REPO)
     return violated, (headline(w) + detail) if violated else (headline(w).replace(" differs from ", " and ").rstrip(": ") + " agree: " + detail)
